@@ -691,6 +691,9 @@ class Interp:
                 raise Unsupported(f"membership in {type(b).__name__}")
             return r if isinstance(op, ast.In) else not r
         f = _CMPOPS[type(op)]
+        if isinstance(op, (ast.Eq, ast.NotEq)) and (_has_obj(a) or _has_obj(b)):
+            r = self.py_eq(a, b, node)
+            return r if isinstance(op, ast.Eq) else (not r)
         if isinstance(a, (Sym, Obj, ClassRef)) or isinstance(b, (Sym, Obj, ClassRef)):
             if isinstance(op, ast.Eq):
                 hook = self.ext.get("eq")
@@ -709,6 +712,57 @@ class Interp:
             raise Unsupported(f"ordering of opaque values: {unparse(node)[:60]}")
         try:
             return f(a, b)
+        except Exception as e:
+            raise Raised(ExcVal(type(e).__name__, e.args), node)
+
+    def py_eq(self, a, b, node=None, depth=0) -> bool:
+        """Python's == for values that contain model objects: containers compare element-wise (identity first),
+        dataclass instances field-wise, instances of classes with a program-defined __eq__ by interpreting it."""
+        if a is b:
+            return True
+        if depth > 60:
+            raise Unsupported("equality recursion too deep")
+        if isinstance(a, (list, tuple)) and isinstance(b, (list, tuple)):
+            if isinstance(a, TupleObj) != isinstance(b, TupleObj) and (isinstance(a, list) != isinstance(b, list)):
+                return False
+            if isinstance(a, list) != isinstance(b, list):
+                return False
+            return len(a) == len(b) and all(self.py_eq(x, y, node, depth + 1) for x, y in zip(a, b))
+        if isinstance(a, dict) and isinstance(b, dict):
+            return a.keys() == b.keys() and all(self.py_eq(a[k], b[k], node, depth + 1) for k in a)
+        if isinstance(a, Obj) and isinstance(b, Obj):
+            hook = self.ext.get("eq")
+            if hook is not None:
+                r = hook(a, b)
+                if r is not None:
+                    return r
+            if a.cls and a.cls in self.prog.classes:
+                fi = self.prog.resolve_method(a.cls, "__eq__")
+                if fi is not None:
+                    return self.truth(self.call(fi, [a, b]), node)
+                ci = self.prog.classes[a.cls]
+                if "dataclass" in ci.decorators:
+                    if a.cls != b.cls:
+                        return False
+                    names = []
+                    for c in reversed(self.prog.mro(a.cls)):
+                        cc = self.prog.classes.get(c)
+                        if cc and "dataclass" in cc.decorators:
+                            names += [f for f in cc.ann_attrs if f not in names]
+                    return all(self.py_eq(a.attrs.get(f), b.attrs.get(f), node, depth + 1) for f in names)
+            return False
+        if isinstance(a, (Obj, Sym, ClassRef)) or isinstance(b, (Obj, Sym, ClassRef)):
+            if isinstance(a, ClassRef) and isinstance(b, ClassRef):
+                return a == b
+            if isinstance(a, Obj) and a.cls and a.cls in self.prog.classes:
+                fi = self.prog.resolve_method(a.cls, "__eq__")
+                if fi is not None:
+                    return self.truth(self.call(fi, [a, b]), node)
+            return False
+        if isinstance(a, (Closure, BoundMethod)) or isinstance(b, (Closure, BoundMethod)):
+            return a is b
+        try:
+            return bool(a == b)
         except Exception as e:
             raise Raised(ExcVal(type(e).__name__, e.args), node)
 
@@ -1220,6 +1274,18 @@ class Interp:
                     continue
                 raise Unsupported(f"isinstance against {x!r}")
         return False
+
+
+def _has_obj(v, depth=0) -> bool:
+    if isinstance(v, (Obj, Sym, ClassRef)):
+        return True
+    if depth > 3:
+        return False
+    if isinstance(v, (list, tuple)):
+        return any(_has_obj(x, depth + 1) for x in v[:50])
+    if isinstance(v, dict):
+        return any(_has_obj(x, depth + 1) for x in list(v.values())[:50])
+    return False
 
 
 def _as_load(t: ast.AST) -> ast.AST:
